@@ -51,7 +51,7 @@ def clmPack (files : List (Bytes × Content)) : String :=
       let members := (List.range v.count).map fun i =>
         let nm := match v.name i with | .ok n => hexOfBytes n | .error _ => "err"
         let sz := match v.size i with | .ok n => toString n | .error _ => "err"
-        s!" {nm}:{sz}:{showRes (v.stream bytes i)}:{showWav (v.extractWav bytes i) (v.size i)}"
+        s!" {nm}|{sz}|{showRes (v.stream bytes i)}|{showWav (v.extractWav bytes i) (v.size i)}"
       s!"ok {showBytes bytes} {v.count}" ++ String.join members
 
 def clmPackList (files : List (Bytes × Content)) : String :=
@@ -67,7 +67,7 @@ def clmPackList (files : List (Bytes × Content)) : String :=
       let members := (List.range v.count).map fun i =>
         let nm := match v.name i with | .ok n => hexOfBytes n | .error _ => "err"
         let sz := match v.size i with | .ok n => toString n | .error _ => "err"
-        s!" {nm}:{sz}:{showRes (v.stream bytes i)}"
+        s!" {nm}|{sz}|{showRes (v.stream bytes i)}"
       s!"ok {v.count}" ++ String.join members
 
 def safeName (n : Bytes) : Bool := !n.isEmpty && n != [46] && n != [46, 46] && !n.contains 47
